@@ -103,9 +103,23 @@ def check_text(c, st):
     if back2 != text or len(again.frames) != len(c['frames']):
         return ('parse:result-shared-between-calls', 'after the caller edited the frames of an earlier result, parsing %r again '
                 'gives %r' % (text, back2))
+    if len(c['frames']) >= 150:
+        # hundreds of frames (a recursion error scraped from a log): a result the caller holds on to must stay what it
+        # was while other long texts - with the same frame headers and other source lines - are parsed
+        st.count('long_text_cases')
+        for held, held_text in _HELD:
+            st.monitor_evals += 1
+            if held.to_string() != held_text:
+                return ('parse:held-result-changed-by-a-later-parse', 'a ParsedException parsed earlier from a %d-line text no longer '
+                        'renders as that text after another long text was parsed (first differing line: %r)'
+                        % (held_text.count('\n'), next((a for a, b in zip(held.to_string().split('\n'), held_text.split('\n')) if a != b), None)))
+        _HELD[:] = (_HELD + [(tb.ParsedException.from_string(text), text)])[-2:]
     st.see(('text', text))
     st.count('text_cases')
     return None
+
+
+_HELD = []
 
 
 PATHS = ['/usr/lib/python3/site-packages/pkg/mod.py', 'mod.py', '/home/user name/my proj/a b.py', '<string>', '<stdin>',
@@ -131,6 +145,8 @@ MSGS = ['', '', 'simple message', 'key: value', 'a: b: c', "'missing'", 'line on
 
 def gen_text(r):
     nf = r.choice([0, 1, 1, 2, 3, 5, 12])
+    if r.random() < 0.004:
+        nf = r.choice([150, 210, 400, 1001])
     frames = []
     mode = r.choice(['all', 'none', 'mixed', 'mixed', 'last-missing', 'first-missing'])
     for i in range(nf):
@@ -368,7 +384,9 @@ def check_live(c, st):
         if c.get('cold'):
             # boltons goes first, with a cold line cache: it has to find the source on its own
             import linecache
-            linecache.clearcache()
+            warm = c.get('cold') == 'warm-first'    # boltons still goes first, but the line cache is left as it is
+            if not warm:
+                linecache.clearcache()
             try:
                 ei0 = tbu.ExceptionInfo.from_exc_info(et, ev, tb)
                 if c.get('cold') == 'after-capture':
@@ -378,7 +396,8 @@ def check_live(c, st):
                 cold_text = ei0.get_formatted()
             except Exception as e:
                 return ('exceptioninfo-raised:%s' % type(e).__name__, 'ExceptionInfo on %r raised %r' % (c, e))
-            linecache.clearcache()
+            if not warm:
+                linecache.clearcache()
         limit = c.get('limit')
         if limit is not None:
             # capped tracebacks: the limit= argument, and sys.tracebacklimit for everything built without one
@@ -415,7 +434,7 @@ def check_live(c, st):
             want_cold_text = strip_markers(''.join(traceback.format_exception(et, ev, tb))).rstrip('\n')
             if cold_frames != want_frames or cold_text.rstrip('\n') != want_cold_text:
                 i = next((i for i, (a, b) in enumerate(zip(cold_frames, want_frames)) if a != b), 0)
-                return ('frames:source:cold-line-cache%s' % (':loader-served' if c.get('mem') else ''),
+                return ('frames:source:%s%s' % ('stale-line-cache' if c.get('cold') == 'warm-first' else 'cold-line-cache', ':loader-served' if c.get('mem') else ''),
                         'with an empty line cache boltons reports frame %d as %r, the traceback module %r (case %r)'
                         % (i, cold_frames[i:i + 1], want_frames[i:i + 1], c))
             st.count('live_cases_cold_cache')
@@ -505,6 +524,8 @@ def gen_live(r):
         c['mem'] = r.random() < 0.7
         c['at_import'] = r.random() < 0.6
         c['cold'] = r.choice([False, True, True, 'after-capture', 'after-capture'])
+    if c.get('rerun') and r.random() < 0.6:
+        c['cold'] = 'warm-first'        # edit-and-rerun with boltons looking at the new file before anybody else does
     if not c.get('mem') and not c.get('rerun') and r.random() < 0.25:
         c['odd_path'] = r.choice(['dotdot', 'dot', 'slashes'])      # found through an un-normalised sys.path entry
     return c
